@@ -1,5 +1,5 @@
 #!/bin/bash
-# usage: tools/selftest.sh [name-filter]
+# usage: [SHARD=i/n] tools/selftest.sh [name-filter]      (SHARD: only every n-th case, starting with the i-th - run n of them in parallel)
 # Tests the checks both ways against committed fixtures, in a scratch worktree of /repo HEAD (removed afterwards):
 #   fixtures/fire/<Cxx[+Cyy..]>__<what>.diff    every listed check must report a violation (exit 1 with a VIOLATION line)
 #   fixtures/silent/<Cxx[+Cyy..]>__<what>.diff  every listed check must stay silent (exit 0); the prefix ALL means all twenty checks
@@ -11,9 +11,12 @@ EV=$(mktemp -d /tmp/selftest_evidence.XXXXXX)
 F=${1:-}
 rmdir $WT
 git -C /repo worktree add -f --detach $WT HEAD >/dev/null 2>&1 || { echo "cannot create worktree"; exit 3; }
-bad=0; n=0
+bad=0; n=0; case_no=0
+SH_I=${SHARD%%/*}; SH_N=${SHARD##*/}
 run_case() { # kind patch props...
   kind=$1; patch=$2; shift 2
+  case_no=$((case_no+1))
+  if [ -n "${SHARD:-}" ] && [ $((case_no % SH_N)) -ne $((SH_I % SH_N)) ]; then return; fi
   git -C $WT checkout -q -- . && git -C $WT clean -fdq
   if ! git -C $WT apply "$patch" 2>/dev/null; then echo "SKIP (does not apply)  $(basename $(dirname $patch))/$(basename $patch)"; bad=1; return; fi
   for pid in "$@"; do
